@@ -130,6 +130,34 @@ def run(c):
                 ev = rj["event"] or {}
                 c.violate("pipeline: " + rj["what"][:200], {"kind": "trace-pipeline", "tag": "C14", "what": rj["what"][:300], "text": ev.get("text")})
     c.cov["abnormal_endings_sent_to_tlc"] = len(crash_events)
+    # ---- the command line as a whole (spec/GramCli.tla): laws of the specification, then every form of invocation on files of
+    # every class against it.  Rejections tagged C14 are violations of this property (outcome contract on file contents); the
+    # others (usage errors, `gram P` = `gram run P`, missing files) are conformance of the specification beyond the listed
+    # properties: counted in the evidence, reported on stderr, never a VIOLATION line.
+    sc = vf.tlc_generate("MC_Cli", "INIT Init\nNEXT Next\nINVARIANT Laws\nCHECK_DEADLOCK FALSE\n", "gramcli", timeout=600, workers=1)
+    c.add_tlc(sc, "command-line specification: `gram P` = `gram run P`, check and run reject alike, exit codes, streams exclusive")
+    if sc["violated"]:
+        c.spec_violation(sc, "command-line specification")
+        return
+    atr = os.path.join(d, "cliargs.ndjson")
+    aevs = cli.run_arg_forms(os.path.join(d, "args"), atr)
+    atv = vf.validate_trace("Trace_CliArgs", atr, "c14-args", par=1)
+    c.add_trace(atv, "Trace_CliArgs")
+    c.cov["replayed_cases"] += len(aevs)
+    beyond = 0
+    for rj in atv["rejects"]:
+        ev = rj["event"] or {}
+        if '"C14"' in rj["what"]:
+            c.violate("command line: " + rj["what"][:220], {"kind": "cli-args", "what": rj["what"][:300], "argv": ev.get("argv")})
+        else:
+            beyond += 1
+            vf.log("command-line conformance beyond the listed properties: %s (%s)" % (rj["what"][:200], ev.get("argv")))
+    c.cov["command_line_forms"] = {"launches": len(aevs), "rejections_beyond_listed_properties": beyond}
+    pe = dict(next(e for e in aevs if e["form"] == "check" and e["key"] == "value"), exit=1)
+    pp = os.path.join(d, "cliargs-probe.ndjson")
+    open(pp, "w").write(json.dumps(pe) + "\n")
+    ppv = vf.validate_trace("Trace_CliArgs", pp, "c14-args-probe", par=1)
+    c.probe("recorded exit status of an accepted `gram check` changed to 1", any('"C14"' in r["what"] for r in ppv["rejects"]))
     # ---- the binary: byte strings (invalid UTF-8 included), mutated sentences, token soup
     alphabet = [b"x", b"1", b" ", b"\n", b"(", b")", b"=", b";", b"#", b"\xc3", b"\xa9", b"\xff", b"\xe2", b"\x80", b"\xf0"]
     files = []
